@@ -131,10 +131,13 @@ func init() {
 // The table is compared with the interval the ecosystem documents for the construct.
 
 var ctorResultRe = regexp.MustCompile(`NewVersion\(.*?\)#0`)
+var nestedCtorRe = regexp.MustCompile("\\{&NewVersion\\(`([^`]*)`\\)#0\\}")
 var ctorArgRe = regexp.MustCompile(`^NewVersion\((.*)\)#[01]`)
 
 func normTemplate(s string) string {
 	// the parsed base
+	s = strings.ReplaceAll(s, "NewVersion(version)#0", "V")
+	s = nestedCtorRe.ReplaceAllString(s, "$1")
 	s = ctorResultRe.ReplaceAllString(s, "V")
 	s = strings.ReplaceAll(s, `c.version`, "V")
 	for i := 0; i < 4; i++ {
@@ -371,6 +374,48 @@ var desugarSpecs = []desugarSpec{
 	}, func(s string) bool {
 		return s == ">= {V.release[0]}.0.0" || s == ">= {V.release[0]}.{V.release[1]}.0"
 	}},
+	{"composer", "parseTildeConstraint", "~V (~1.2 allows everything below 2.0.0, ~1.2.3 below 1.3.0)", func(l dsLeaf) ([]string, string) {
+		if len(l.cons) == 1 && strings.HasPrefix(l.cons[0], "= ") {
+			return nil, "skip" // a dev branch is matched exactly
+		}
+		c, ok := l.cmpInt(`len(Split(version,"."))`, 2)
+		if !ok {
+			return nil, "the arity of the base is not compared with 2"
+		}
+		if c <= 0 {
+			return []string{"< {(V.major+1)}.0.0"}, ""
+		}
+		return []string{"< {V.major}.{(V.minor+1)}.0"}, ""
+	}, func(s string) bool {
+		return s == ">= {&V}" || s == ">= {V.major}.0.0" || s == ">= {V.major}.{V.minor}.0"
+	}},
+	{"composer", "parseCaretConstraint", "^V for a base with a stability suffix (left-most non-zero component may not change)", func(l dsLeaf) ([]string, string) {
+		for _, c := range l.cons {
+			if strings.HasPrefix(c, "caret") || strings.HasPrefix(c, "= ") {
+				return nil, "skip" // stable bases use the direct caret predicates (named exception of C05), dev branches are exact
+			}
+		}
+		mz, ok := l.zero("V.major")
+		if !ok {
+			if c, ok2 := l.cmpInt("V.major", 0); ok2 {
+				mz, ok = c == 0, true
+			}
+		}
+		if !ok {
+			return nil, "V.major is not examined"
+		}
+		if !mz {
+			return []string{"< {(V.major+1)}.0.0"}, ""
+		}
+		nz, ok := l.zero("V.minor")
+		if !ok {
+			return nil, "V.minor is not examined although V.major is 0"
+		}
+		if !nz {
+			return []string{"< 0.{(V.minor+1)}.0"}, ""
+		}
+		return []string{"< 0.0.{(V.patch+1)}"}, ""
+	}, func(s string) bool { return s == ">= {&V}" }},
 	{"hex", "expandPessimisticConstraint", "~> V (Elixir Version: ~> X.Y allows everything below (X+1).0.0, ~> X.Y.Z below X.(Y+1).0)", func(l dsLeaf) ([]string, string) {
 		n, ok := l.intAt(`Count(V.original,".")`)
 		if ok && n == 1 {
